@@ -43,6 +43,30 @@ def run(ctx):
              'and depth 2-3 with <=3 temporal operators (sampled per structure); every excluded verdict of the reference is certified by a '
              'concrete lasso evaluated with the independent position-wise evaluator; non-trivial = answer neither empty nor all; '
              'distinct by (K, formula)' % ('1500 sampled' if thorough else '120 sampled'))
+    # every total relation on 3 states x a few labellings x the core liveness/safety shapes, under two
+    # atom namings (tableau iteration order depends on the hash of the atom names)
+    core = [('F', ('G', ('ap', 'p'))), ('G', ('F', ('ap', 'p'))), ('U', ('ap', 'p'), ('ap', 'q')), ('G', ('ap', 'p')),
+            ('F', ('ap', 'q')), ('X', ('ap', 'p')), ('R', ('ap', 'p'), ('ap', 'q')),
+            ('or', ('G', ('ap', 'p')), ('F', ('ap', 'q'))), ('imply', ('G', ('F', ('ap', 'p'))), ('G', ('F', ('ap', 'q'))))]
+    labs3 = [{0: ['p'], 1: ['p'], 2: []}, {0: ['p'], 1: ['q'], 2: ['p', 'q']}, {0: [], 1: ['p'], 2: ['q']}, {0: ['p', 'q'], 1: [], 2: ['p']}]
+    rel3 = list(gen.total_relations(3))
+    namings = [{'p': 'p', 'q': 'q'}, {'p': 'zeta_%d' % (ctx.seed % 7), 'q': 'Alpha9'}, {'p': 'p17', 'q': 'p3'}]
+    if not thorough:
+        rel3 = rng.sample(rel3, 200)
+
+    def ren(t, m):
+        if t[0] == 'ap':
+            return ('ap', m[t[1]])
+        return (t[0],) + tuple(ren(c, m) for c in t[1:])
+    scc_cases = []
+    for R in rel3:
+        for L0 in (labs3 if thorough else rng.sample(labs3, 2)):
+            m = rng.choice(namings)
+            scc_cases.append(('LTL', ([0, 1, 2], R, {s: [m[a] for a in l] for s, l in L0.items()}),
+                              [('A', ren(g, m)) for g in core], {}))
+    driver.run_cases(ctx, 'ltl-scc-shapes', 'vf.rtc.mc_rtc', 'check_mc_case', scc_cases, chunk=4,
+                     rule='%s total relations on 3 states x labellings x 9 core liveness/safety path formulas, atoms renamed '
+                          '(tableau/SCC iteration order depends on hashing of names)' % ('all 343' if thorough else '200 sampled'))
     rk = []
     for _ in range(600 if thorough else 60):
         S, R, L = gen.random_kripke_data(rng, 5)
